@@ -33,6 +33,10 @@ def rules(chk, db):
     # table layout: hash, count of non-empty entries, per entry id + byte size + value + padding to the declared size
     tablerules.rules(chk, db, {'TW', 'TE'})
     c16.rules(chk, db, prefix='BW.', only={'nop::BoundedWriter'})
+    # the compile-time writer must lay down the same bytes as the run-time writers
+    from . import c17
+    chk.rule('L', 'ConstexprBufferWriter::WriteElement stores little-endian byte lanes at index_ + offset', minimum=8)
+    c17.lanes(chk, db, 'L')
     chk.rule('CO', 'wrapper encoders are composed of exactly the documented component encodings', minimum=30)
     encrules.composition(chk, db, 'CO', ('WritePayload', 'Prefix', 'Size'))
     # Size() is on the wire too: it is the declared byte size of every table entry
